@@ -451,9 +451,9 @@ def part_builtin_matrix(ctx, tmp):
         if b is not None:
             built.append((tpl, h, sh, b))
     n_all = len(built)
-    target = 300 if ctx.tier == "quick" else (n_all if os.environ.get("VERIF_C20_FULL_MATRIX") == "1" else 8000)
+    target = 300 if ctx.tier == "quick" else (n_all if os.environ.get("VERIF_C20_FULL_MATRIX") == "1" else 6000)
     if target < n_all:
-        # seeded sample, stratified so that every builtin and every shape occurs (thorough: 8000 of the ~20k programs to stay
+        # seeded sample, stratified so that every builtin and every shape occurs (thorough: 6000 of the ~20k programs to stay
         # inside the tier budget; VERIF_C20_FULL_MATRIX=1 runs the whole matrix, ~25 min on 3 cores)
         by_b, by_s = collections.defaultdict(list), collections.defaultdict(list)
         for c in built:
@@ -534,7 +534,7 @@ def part_cf_exec(ctx, tmp):
     from vlib.c18_corpus import gen_cf_program
     from vlib.evm import Chain
     rnd = ctx.rng("cfexec")
-    n_word, n_mem = (6, 14) if ctx.tier == "quick" else (60, 240)
+    n_word, n_mem = (4, 10) if ctx.tier == "quick" else (30, 120)
     items = []
     for i in range(n_word):
         items.append({"id": f"cfw{i}", "src": gen_cf_program(rnd), "how": "cf-exec:words", "base": f"cfw{i}"})
